@@ -196,11 +196,22 @@ class QConv1D(Conv1D, PrunableLayer):
     else:
       quantized_kernel = self.kernel
 
+    padding = self.padding
+    if padding == "causal":
+      # Pad the time axis here, as Conv1D.call does: K.conv1d pads axis 1 for
+      # "causal", which is the channel axis under channels_first.
+      left_pad = self.dilation_rate[0] * (self.kernel_size[0] - 1)
+      if self.data_format == "channels_last":
+        inputs = tf.pad(inputs, [[0, 0], [left_pad, 0], [0, 0]])
+      else:
+        inputs = tf.pad(inputs, [[0, 0], [0, 0], [left_pad, 0]])
+      padding = "valid"
+
     outputs = tf.keras.backend.conv1d(
         inputs,
         quantized_kernel,
         strides=self.strides[0],
-        padding=self.padding,
+        padding=padding,
         data_format=self.data_format,
         dilation_rate=self.dilation_rate[0])
 
